@@ -94,6 +94,8 @@ pub struct Ctx {
     pub out_dir: String,
     /// optional scale factor for the number of cases (VERIF_SCALE, percent)
     pub scale_pct: u64,
+    /// run only the cases [first, first+count) of each selected part (sharded sanitizer runs)
+    pub case_range: Option<(u64, u64)>,
 }
 
 impl Ctx {
@@ -320,7 +322,11 @@ where
     F: Fn(u64, &mut Rng, &Ctx) -> CaseOut + Sync,
 {
     let t0 = Instant::now();
-    let next = AtomicU64::new(0);
+    let (first, n) = match ctx.case_range {
+        Some((a, c)) => (a.min(n), (a + c).min(n)),
+        None => (0, n),
+    };
+    let next = AtomicU64::new(first);
     let results: Mutex<Vec<(u64, CaseOut)>> = Mutex::new(Vec::new());
     let key = format!("{}/{}", ctx.prop, part);
     let threads = if ctx.verbose { 1 } else { ctx.threads.max(1) };
